@@ -136,6 +136,33 @@ func presentations() []pres {
 			w.Put(red, world.Redirect(302, target))
 			return target
 		}},
+		{"stub-of-open-redirect-to-own-id", func(from string, a bool) any {
+			// a stub whose id is an open redirector on the victim's host; the landing document is
+			// honest about itself (its own id on the attacker's host)
+			serial++
+			red := fmt.Sprintf("%s/go%d", h1, serial)
+			d := mkDoc(from, a, func(m M) { m["id"] = fmt.Sprintf("%s/own%d", from, serial) })
+			target := serveOn(from, fmt.Sprintf("/own%d", serial), d)
+			w.Put(red, world.Redirect(302, target))
+			return M{"id": red}
+		}},
+		{"stub-of-open-redirect-to-no-id", func(from string, a bool) any {
+			serial++
+			red := fmt.Sprintf("%s/go%d", h1, serial)
+			d := mkDoc(from, a, func(m M) { delete(m, "id") })
+			target := serveOn(from, fmt.Sprintf("/anon%d", serial), d)
+			w.Put(red, world.Redirect(302, target))
+			return M{"id": red, "type": "Note"}
+		}},
+		{"foreign-id-open-redirect-to-own-id", func(from string, a bool) any {
+			serial++
+			red := fmt.Sprintf("%s/go%d", h1, serial)
+			d := mkDoc(from, a, func(m M) { m["id"] = fmt.Sprintf("%s/own%d", from, serial) })
+			target := serveOn(from, fmt.Sprintf("/own%d", serial), d)
+			w.Put(red, world.Redirect(302, target))
+			full := mkDoc(from, a, func(m M) { m["id"] = red })
+			return full
+		}},
 		{"relative-redirect", func(from string, a bool) any {
 			serial++
 			serveOn(from, fmt.Sprintf("/rel%d", serial), mkDoc(from, a, nil))
@@ -403,7 +430,7 @@ func refDecoded(ref any) any {
 
 func main() {
 	r := ev.New("C02", "model_checking",
-		"attack worlds: attacker host in {evil, h2} x 10 reference slots (inReplyTo, attributedTo, audience, reply item, activity object/actor, Create object, outbox item, collection item, first page) x 17 presentations of a forged copy of h1's note or actor "+
+		"attack worlds: attacker host in {evil, h2} x 10 reference slots (inReplyTo, attributedTo, audience, reply item, activity object/actor, Create object, outbox item, collection item, first page) x 20 presentations of a forged copy of h1's note or actor "+
 			"(embedded copy, stubs, URL to a forging path, redirects to the victim / a third-host copy / relative, victim-host open redirect, open redirect used as id, id with :443 / upper case / userinfo / trailing dot / missing / wrong type, genuine URL) "+
 			"x warming history {cold, victim cached, reference cached, carrier fetched before} x cache size {1,2,128}; each through pub.New (by URL twice, embedded with attacker source, embedded without source) with every reachable item inspected, and through client.FetchUnknown three times; "+
 			"every object names its serving host in its visible text and in a stamp; distinct_nontrivial = attack cases (not the genuine-URL control)")
